@@ -29,8 +29,13 @@ def _dep(name, path, extra=""):
 
 
 def deps_for(hb):
-    if hb in ("std", "std-native", "std-layout1", "std-layout4"):
+    tf = ""
+    if hb in ("std", "std-native", "std-layout1", "std-layout4", "std-features"):
         chacha = blake = jh = ""
+        if hb == "std-features":
+            # the cargo features the default build leaves off and that change code: threefish's `no_unroll` (loops instead of
+            # unrolled rounds; reaches Skein through feature unification)
+            tf = ', features = ["no_unroll"]'
     elif hb == "portable":
         chacha = ', features = ["no_simd"]'
         blake = jh = ""
@@ -45,7 +50,7 @@ def deps_for(hb):
             _dep("jh-x86_64", "hashes/jh", jh),
             _dep("groestl-aesni", "hashes/groestl"),
             _dep("skein-hash", "hashes/skein"),
-            _dep("threefish-cipher", "block-ciphers/threefish"),
+            _dep("threefish-cipher", "block-ciphers/threefish", tf),
             _dep("ppv-lite86", "utils-simd/ppv-lite86"),
         ]
     )
@@ -56,6 +61,7 @@ HOST_BUILDS = {
     # run-time dispatch as shipped, but compiled for exactly this CPU: every cfg(target_feature = ..) path the machine
     # supports (AVX2, AVX-512 ...) is compiled in, as with RUSTFLAGS=-C target-cpu=native
     "std-native": "-C target-cpu=native",
+    "std-features": "",
     # the compiler is part of the environment too: field order of ordinary (non-repr(C)) structs is unspecified; these two
     # builds let nightly rustc randomise it (a layout assumption in unsafe code shows here and nowhere else)
     "std-layout1": "-Zrandomize-layout -Zlayout-seed=1",
@@ -439,6 +445,7 @@ prop(
         Leg("std", "dev", "hash_stream", "C08", 8000, 150000, max_ops=30),
         Leg("portable", "checked", "hash_stream", "C08", 20000, 1000000, max_ops=30, tiers=("thorough",)),
         Leg("std-native", "release", "hash_stream", "C08", 100000, 1000000, max_ops=30),
+        Leg("std-features", "release", "hash_stream", "C08", 100000, 1000000, max_ops=30),
         Leg("std", "release", "hash_stream", "C08", 50000, 1000000, max_ops=30, extra=["--groestl-level", "2"]),
         Leg("std", "checked", "hash_stream", "C08", 0, 1000000, max_ops=30, extra=["--groestl-level", "1"]),
     ],
@@ -487,13 +494,13 @@ prop(
     ],
     [REAL, STUB],
     cross=[
-        Cross("hash_stream", "C03", "release", 20000, 200000, QUICK_FIXED, ALL_FIXED, max_ops=30),
+        Cross("hash_stream", "C03", "release", 20000, 200000, QUICK_FIXED + ["std-features"], ALL_FIXED + ["std-features"], max_ops=30),
         Cross("chacha_stream", "C02", "release", 20000, 200000, QUICK_FIXED, ALL_FIXED),
         Cross("chacha_block", "C14", "release", 20000, 200000, QUICK_FIXED, ALL_FIXED, max_ops=32),
         Cross("vecops", "C03", "release", 100000, 2000000, ["portable", "std-native"], ["portable", "nostd-sse2", "nostd-avx2", "std-native"], max_ops=40),
     ],
-    # (vector-operation programs are not compared on the big-endian host: the portable backend's storage views are not
-    # endian-neutral - the root cause of the open JH finding - so every program diverges at its first 64/128-bit view)
+    # (the lane-level vector programs are not compared on the big-endian host: their storage-conversion loads are a
+    # native-memory pun by design; the byte-I/O programs - vecopsb - are)
     be_host={"quick": [(BE_TARGET, 1, "cipher,jh1,vecopsb"), (I686_TARGET, 1, "vecops,vecopsb")], "thorough": [(BE_TARGET, 2, "block,cipher,hash,vecopsb"), (I686_TARGET, 3, "cipher,vecops,vecopsb")]},
 )
 
@@ -522,6 +529,8 @@ prop(
         Leg("portable", "release", "mem", "C16enum", -1, -1, max_ops=192, sharded=True),
         Leg("portable", "release", "mem", "C16", 0, 300000, max_ops=40, sharded=True),
         Leg("std-native", "release", "mem", "C16enum", -1, -1, max_ops=192, sharded=True),
+        Leg("std-features", "release", "mem", "C16enum", -1, -1, max_ops=192, sharded=True),
+        Leg("std-features", "checked", "mem", "C16", 20000, 300000, max_ops=40, sharded=True),
         # hook H3: the Groestl fallback compressor variants (run-time detection answers "no AES-NI" / "no SSSE3")
         Leg("std", "release", "mem", "C16enum", -1, -1, max_ops=192, sharded=True, extra=["--groestl-level", "2"]),
         Leg("std", "release", "mem", "C16enum", 0, -1, max_ops=192, sharded=True, extra=["--groestl-level", "1"]),
@@ -555,7 +564,7 @@ MiB = 1 << 20
 prop(
     "C17",
     "exploration",
-    "one case = one seeded run: one hash instance (24 types) and its independent reference model; 0-3 real pieces are absorbed, then the length counter - the hash's clock - "
+    "one case = one seeded run: one hash instance (33 types) and its independent reference model; 0-3 real pieces are absorbed, then the length counter - the hash's clock - "
     "is JUMPED (hook H2, same jump in the reference) to within 6 blocks of a boundary of that type (BLAKE-224/256: 2^32 bits, format limit 2^64-1 bits; BLAKE-384/512: 2^64-bit "
     "carry, 2^32 bits, 2^128-bit limit; Groestl: 2^8/2^16/2^32/2^64-3 blocks; JH: 2^32 bits, 2^32 bytes, 2^61 bytes; Skein: 2^32 bytes, 2^64 bytes; plus intermediate ones), then 1-6 more "
     "pieces are absorbed so that the boundary is crossed by update, by the padding, or not quite, and the digest is compared with the reference; after every step the counter read back "
@@ -574,6 +583,7 @@ prop(
         Leg("std", "dev", "counters", "C17", 6000, 100000, max_ops=16),
         Leg("portable", "checked", "counters", "C17", 0, 200000, max_ops=16),
         Leg("std-native", "release", "counters", "C17", 50000, 500000, max_ops=16),
+        Leg("std-features", "checked", "counters", "C17", 50000, 500000, max_ops=16),
         # the hash-history scenario also jumps counters and feeds views of a growing buffer (non-idempotent as_ref):
         # its invariant H2 "the digest is that of ONE of the views handed out" concerns the amount counted
         Leg("std", "checked", "hash_stream", "C08", 150000, 1500000, max_ops=30),
@@ -616,7 +626,7 @@ prop(
 prop(
     "C18",
     "exploration",
-    "two layers. (a) one case = one seeded run of the `interleave` world: root instances of all kinds (7 cipher types, block-API states, 24 hash types, 3 Threefish sizes incl. "
+    "two layers. (a) one case = one seeded run of the `interleave` world: root instances of all kinds (7 cipher types, block-API states, 33 hash types, 3 Threefish sizes incl. "
     "with_tweak and shared keys) in one thread, calls interleaved by the seeded scheduler at call granularity on a simulated host; afterwards every instance's own operations are "
     "replayed alone in a fresh world on a fresh thread and its transcript (per-instance event-log digest) must be identical; an inner check that fails only when interleaved is a violation too. "
     "(b) one case = one cold process under a controlled scheduler: one of 105 enumerated thread workloads (2-4 threads released by a barrier) - 74 first-call workloads (ALL threads make the same kind of FIRST call, "
@@ -635,6 +645,7 @@ prop(
         Leg("std", "checked", "interleave", "C18", 10000, 300000, max_ops=60, sharded=True),
         Leg("portable", "checked", "interleave", "C18", 0, 150000, max_ops=60, sharded=True),
         Leg("std-native", "release", "interleave", "C18", 0, 150000, max_ops=60, sharded=True),
+        Leg("std-features", "release", "interleave", "C18", 0, 150000, max_ops=60, sharded=True),
     ],
     [REAL, STUB + "; Miri interprets the real crates (portable SIMD backend)"],
     miri=True,
